@@ -80,6 +80,9 @@ func ValidateAgainstSingleSchema(values Values, schemaJSON []byte) (reterr error
 	slog.Debug("unmarshalled JSON schema", "schema", schemaJSON)
 
 	compiler := jsonschema.NewCompiler()
+	// A chart's schema may only reference itself: the library's default loader
+	// would read "file://" references from the host file system.
+	compiler.UseLoader(noExternalRefLoader{})
 	err = compiler.AddResource("file:///values.schema.json", schema)
 	if err != nil {
 		return err
@@ -96,6 +99,15 @@ func ValidateAgainstSingleSchema(values Values, schemaJSON []byte) (reterr error
 	}
 
 	return nil
+}
+
+// noExternalRefLoader refuses to load any schema document that is not already
+// registered with the compiler.
+type noExternalRefLoader struct{}
+
+// Load implements jsonschema.URLLoader
+func (noExternalRefLoader) Load(url string) (any, error) {
+	return nil, fmt.Errorf("external schema references are not supported: %q", url)
 }
 
 // Note, JSONSchemaValidationError is used to wrap the error from the underlying
